@@ -23,7 +23,14 @@ pub enum Scen {
     ConnectTimeout,
     InProgTry,
     InProgBlocking,
+    /// a stream obtained through `obtain` is used through `use_` while the peer stays silent
+    Chain,
 }
+
+/// every way of obtaining a stream ...
+pub const OBTAINS: &[&str] = &["accept", "try_accept", "accept_with_timeout", "connect", "try_connect", "connect_with_timeout", "connect_blocking"];
+/// ... followed by every way of using it (peer connected but silent)
+pub const USES: &[&str] = &["read_with_timeout", "read", "write"];
 
 pub const SCENS: &[(Scen, &str)] = &[
     (Scen::Write, "write"),
@@ -37,6 +44,7 @@ pub const SCENS: &[(Scen, &str)] = &[
     (Scen::ConnectTimeout, "connect_with_timeout"),
     (Scen::InProgTry, "inprogress.try_connect"),
     (Scen::InProgBlocking, "inprogress.connect_blocking"),
+    (Scen::Chain, "chain"),
 ];
 
 #[derive(Clone, Copy, PartialEq, Eq, Debug)]
@@ -65,6 +73,9 @@ pub struct Case {
     pub mode: usize,
     pub timeout: Option<u64>,
     pub peer: PeerMode,
+    /// Chain only: index into OBTAINS / USES
+    pub obtain: usize,
+    pub use_: usize,
 }
 
 impl Case {
@@ -75,6 +86,7 @@ impl Case {
             "len": self.len, "cap": self.cap, "mode": self.mode,
             "timeout_ns": self.timeout,
             "peer": PEERS.iter().find(|s| s.0 == self.peer).map(|s| s.1),
+            "obtain": OBTAINS.get(self.obtain), "use": USES.get(self.use_),
         })
     }
     pub fn from_json(v: &Value) -> Option<Case> {
@@ -86,6 +98,8 @@ impl Case {
             mode: v["mode"].as_u64()? as usize,
             timeout: v["timeout_ns"].as_u64(),
             peer: PEERS.iter().find(|s| Some(s.1) == v["peer"].as_str())?.0,
+            obtain: OBTAINS.iter().position(|s| Some(*s) == v["obtain"].as_str()).unwrap_or(0),
+            use_: USES.iter().position(|s| Some(*s) == v["use"].as_str()).unwrap_or(0),
         })
     }
     /// `<Type>::<op>` of the operation under test
@@ -103,6 +117,7 @@ impl Case {
             Scen::ConnectTimeout => format!("{f}Stream::connect_with_timeout"),
             Scen::InProgTry => "TcpStreamInProgress::try_connect".into(),
             Scen::InProgBlocking => "TcpStreamInProgress::connect_blocking".into(),
+            Scen::Chain => format!("{f}Stream::{}", USES[self.use_.min(USES.len() - 1)]),
         }
     }
 }
@@ -167,6 +182,8 @@ pub struct AppOut {
     pub eintr: bool,
     pub short: bool,
     pub timeout_fired: bool,
+    /// a UnixStream came back in blocking mode: not observable through tiny-std's API (no timed or try operation on it)
+    pub unix_blocking_fd: bool,
 }
 
 #[derive(Clone, Copy, PartialEq, Eq)]
@@ -252,6 +269,7 @@ unsafe fn reset_counters(wp: *mut World) {
     w.ealready = 0;
     w.refused = 0;
     w.accept_fds = 0;
+    w.kernel_sleeps = 0;
 }
 
 /// The stream handed out by accept/connect really is the model's connection: the peer
@@ -284,9 +302,72 @@ unsafe fn hello_check(op: &str, s: &mut AnyStream, wp: *mut World, out: &mut App
     }
 }
 
+/// The descriptor behind a freshly obtained listener/stream must be in the mode the rest of
+/// tiny-std relies on (non-blocking): the timed and try operations only work on such a descriptor.
+unsafe fn mode_check(made_by: &str, what: &str, fd: i32, observable: bool, wp: *mut World, out: &mut AppOut) {
+    if (*wp).nonblock_of(fd) == Some(false) {
+        if observable {
+            out.viol.push((
+                format!("C16:{made_by}:returns-blocking-descriptor"),
+                format!(
+                    "{made_by} handed out a {what} whose descriptor {fd} is in BLOCKING mode (created without SOCK_NONBLOCK): \
+                     the timed / try operations on it sleep inside the kernel call instead of reaching ppoll"
+                ),
+            ));
+        } else {
+            out.unix_blocking_fd = true;
+        }
+    }
+}
+
+unsafe fn bind_listener(fam: Fam, wp: *mut World, out: &mut AppOut) -> Option<AnyListener> {
+    let l = match fam {
+        Fam::Unix => match UnixListener::bind(sock_path()) {
+            Ok(l) => AnyListener::U(l),
+            Err(e) => {
+                out.machinery = Some(format!("setup bind failed: {e}"));
+                return None;
+            }
+        },
+        Fam::Tcp => match TcpListener::bind(&inet_addr()) {
+            Ok(l) => {
+                if l.local_addr().is_err() {
+                    out.machinery = Some("local_addr failed".into());
+                }
+                AnyListener::T(l)
+            }
+            Err(e) => {
+                out.machinery = Some(format!("setup bind failed: {e}"));
+                return None;
+            }
+        },
+    };
+    if let Some(fd) = (*wp).listener_fd() {
+        let f = if fam == Fam::Unix { "Unix" } else { "Tcp" };
+        // observable for both families: try_accept / accept_with_timeout exist on both listeners
+        mode_check(&format!("{f}Listener::bind"), "listener", fd, true, wp, out);
+    }
+    Some(l)
+}
+
+unsafe fn stream_mode_check(made_by: &str, s: &AnyStream, wp: *mut World, out: &mut AppOut) {
+    // TcpStream has read_with_timeout; UnixStream has no timed or try operation
+    mode_check(made_by, "stream", s.fd(), matches!(s, AnyStream::T(_)), wp, out);
+}
+
+unsafe fn try_slept(op: &str, wp: *mut World, out: &mut AppOut) {
+    if (*wp).kernel_sleeps > 0 {
+        out.viol.push((
+            format!("C16:{op}:try-variant-blocks"),
+            format!("{op} slept in the kernel inside a system call on a blocking-mode descriptor until the peer acted"),
+        ));
+    }
+}
+
 pub unsafe fn app(case: &Case, wp: *mut World) -> AppOut {
     let mut out = AppOut::default();
     let op = case.op();
+    (*wp).set_op("set-up", true);
     match case.scen {
         Scen::Write => {
             let mut s = match setup_stream(case.fam, wp) {
@@ -298,6 +379,7 @@ pub unsafe fn app(case: &Case, wp: *mut World) -> AppOut {
             };
             (*wp).peer.reads = true;
             reset_counters(wp);
+            (*wp).set_op(&op, true);
             (*wp).set_phase(Phase::Measured);
             let pl = payload(case.len);
             let mut sent: Vec<u8> = Vec::new();
@@ -359,6 +441,7 @@ pub unsafe fn app(case: &Case, wp: *mut World) -> AppOut {
                 out.sent = Some(sent);
             }
             snapshot(wp, &mut out);
+            (*wp).set_op("epilogue", true);
             (*wp).set_phase(Phase::Epilogue);
             drop(s);
         }
@@ -377,6 +460,7 @@ pub unsafe fn app(case: &Case, wp: *mut World) -> AppOut {
             }
             (*wp).peer.written = 0;
             reset_counters(wp);
+            (*wp).set_op(&op, true);
             (*wp).set_phase(Phase::Measured);
             out.result = "ok".into();
             let mut got: Vec<u8> = Vec::new();
@@ -454,33 +538,15 @@ pub unsafe fn app(case: &Case, wp: *mut World) -> AppOut {
             }
             out.got = Some(got);
             snapshot(wp, &mut out);
+            (*wp).set_op("epilogue", true);
             (*wp).set_phase(Phase::Epilogue);
             drop(s);
         }
         Scen::Accept | Scen::TryAccept | Scen::AcceptTimeout => {
-            let mut l = match case.fam {
-                Fam::Unix => match UnixListener::bind(sock_path()) {
-                    Ok(l) => AnyListener::U(l),
-                    Err(e) => {
-                        out.machinery = Some(format!("setup bind failed: {e}"));
-                        return out;
-                    }
-                },
-                Fam::Tcp => match TcpListener::bind(&inet_addr()) {
-                    Ok(l) => {
-                        if l.local_addr().is_err() {
-                            out.machinery = Some("local_addr failed".into());
-                        }
-                        AnyListener::T(l)
-                    }
-                    Err(e) => {
-                        out.machinery = Some(format!("setup bind failed: {e}"));
-                        return out;
-                    }
-                },
-            };
+            let Some(mut l) = bind_listener(case.fam, wp, &mut out) else { return out };
             (*wp).peer.connects_left = (case.peer == PeerMode::Ready) as u32;
             reset_counters(wp);
+            (*wp).set_op(&op, true);
             (*wp).set_phase(Phase::Measured);
             let t0 = (*wp).clock;
             let to = Duration::from_nanos(case.timeout.unwrap_or(0));
@@ -496,10 +562,15 @@ pub unsafe fn app(case: &Case, wp: *mut World) -> AppOut {
             if case.scen == Scen::TryAccept && (*wp).blocking_ppolls > 0 {
                 out.viol.push((format!("C16:{op}:try-variant-blocks"), format!("{op} called ppoll with a blocking time-out {} time(s)", (*wp).blocking_ppolls)));
             }
+            if case.scen == Scen::TryAccept {
+                try_slept(&op, wp, &mut out);
+            }
+            (*wp).set_op("epilogue", true);
             (*wp).set_phase(Phase::Epilogue);
             match res {
                 Ok(Some(mut s)) => {
                     out.result = "ok".into();
+                    stream_mode_check(&op, &s, wp, &mut out);
                     if (*wp).accept_fds == 0 {
                         out.viol.push((
                             format!("C16:{op}:returned-before-peer-acted"),
@@ -530,9 +601,16 @@ pub unsafe fn app(case: &Case, wp: *mut World) -> AppOut {
                 PeerMode::Blackhole => (*wp).peer.blackhole = true,
             }
             reset_counters(wp);
+            (*wp).set_op(&op, true);
             (*wp).set_phase(Phase::Measured);
             let t0 = (*wp).clock;
             let to = Duration::from_nanos(case.timeout.unwrap_or(0));
+            // which operation created the socket of the stream that comes back
+            let made_by = if case.fam == Fam::Tcp && matches!(case.scen, Scen::TryConnect | Scen::InProgTry | Scen::InProgBlocking) {
+                "TcpStream::try_connect".to_string()
+            } else {
+                op.clone()
+            };
             // Ok(Some(stream)) connected, Ok(None) "not now", Err
             let mut first_op = op.clone();
             let res: Result<Option<AnyStream>, Error> = match (case.fam, case.scen) {
@@ -542,7 +620,12 @@ pub unsafe fn app(case: &Case, wp: *mut World) -> AppOut {
                 (Fam::Tcp, Scen::ConnectTimeout) => TcpStream::connect_with_timeout(&inet_addr(), to).map(|s| Some(AnyStream::T(s))),
                 (Fam::Tcp, _) => {
                     first_op = "TcpStream::try_connect".into();
-                    match TcpStream::try_connect(&inet_addr()) {
+                    (*wp).set_op(&first_op, true);
+                    let first = TcpStream::try_connect(&inet_addr());
+                    try_slept(&first_op, wp, &mut out);
+                    (*wp).kernel_sleeps = 0;
+                    (*wp).set_op(&op, true);
+                    match first {
                         Ok(TcpTryConnect::Connected(s)) => Ok(Some(AnyStream::T(s))),
                         Ok(TcpTryConnect::InProgress(p)) => {
                             if (*wp).blocking_ppolls > 0 {
@@ -579,10 +662,15 @@ pub unsafe fn app(case: &Case, wp: *mut World) -> AppOut {
             if is_try && (*wp).blocking_ppolls > 0 {
                 out.viol.push((format!("C16:{op}:try-variant-blocks"), format!("{op} called ppoll with a blocking time-out {} time(s)", (*wp).blocking_ppolls)));
             }
+            if is_try {
+                try_slept(&op, wp, &mut out);
+            }
+            (*wp).set_op("epilogue", true);
             (*wp).set_phase(Phase::Epilogue);
             match res {
                 Ok(Some(mut s)) => {
                     out.result = "ok".into();
+                    stream_mode_check(&made_by, &s, wp, &mut out);
                     hello_check(&op, &mut s, wp, &mut out);
                     drop(s);
                 }
@@ -603,6 +691,139 @@ pub unsafe fn app(case: &Case, wp: *mut World) -> AppOut {
                     }
                 }
             }
+        }
+        Scen::Chain => {
+            let f = if case.fam == Fam::Unix { "Unix" } else { "Tcp" };
+            let to15 = Duration::from_millis(1500);
+            let mut keep: Option<AnyListener> = None;
+            // ---- obtain the stream (outside the enumeration: default answers, the peer acts when the application waits)
+            let (made_by, res): (String, Result<Option<AnyStream>, Error>) = match case.obtain {
+                0..=2 => {
+                    let Some(mut l) = bind_listener(case.fam, wp, &mut out) else { return out };
+                    (*wp).peer.connects_left = 1;
+                    if case.obtain == 1 {
+                        (*wp).peer_now(PAct::Connect);
+                    }
+                    let name = format!("{f}Listener::{}", OBTAINS[case.obtain]);
+                    (*wp).set_op(&name, true);
+                    let r = match (&mut l, case.obtain) {
+                        (AnyListener::U(l), 0) => l.accept().map(|s| Some(AnyStream::U(s))),
+                        (AnyListener::U(l), 1) => l.try_accept().map(|o| o.map(AnyStream::U)),
+                        (AnyListener::U(l), _) => l.accept_with_timeout(to15).map(|s| Some(AnyStream::U(s))),
+                        (AnyListener::T(l), 0) => l.accept().map(|s| Some(AnyStream::T(s))),
+                        (AnyListener::T(l), 1) => l.try_accept().map(|o| o.map(AnyStream::T)),
+                        (AnyListener::T(l), _) => l.accept_with_timeout(to15).map(|s| Some(AnyStream::T(s))),
+                    };
+                    keep = Some(l);
+                    (name, r)
+                }
+                _ => {
+                    (*wp).peer.listening = true;
+                    let name = format!("{f}Stream::{}", if case.obtain == 6 { "try_connect" } else { OBTAINS[case.obtain.min(5)] });
+                    (*wp).set_op(&name, true);
+                    let r = match (case.fam, case.obtain) {
+                        (Fam::Unix, 3) => UnixStream::connect(sock_path()).map(|s| Some(AnyStream::U(s))),
+                        (Fam::Unix, _) => UnixStream::try_connect(sock_path()).map(|o| o.map(AnyStream::U)),
+                        (Fam::Tcp, 3) => TcpStream::connect(&inet_addr()).map(|s| Some(AnyStream::T(s))),
+                        (Fam::Tcp, 5) => TcpStream::connect_with_timeout(&inet_addr(), to15).map(|s| Some(AnyStream::T(s))),
+                        (Fam::Tcp, ob) => match TcpStream::try_connect(&inet_addr()) {
+                            Ok(TcpTryConnect::Connected(s)) => Ok(Some(AnyStream::T(s))),
+                            Ok(TcpTryConnect::InProgress(p)) => {
+                                if ob == 4 {
+                                    // the handshake completes, then the try variant finishes the connection
+                                    if let Some(ci) = (*wp).peer.data_conn {
+                                        (*wp).peer_now(PAct::Handshake(ci));
+                                    }
+                                    (*wp).set_op("TcpStreamInProgress::try_connect", true);
+                                    match p.try_connect() {
+                                        Ok(TcpTryConnect::Connected(s)) => Ok(Some(AnyStream::T(s))),
+                                        Ok(TcpTryConnect::InProgress(_)) => Ok(None),
+                                        Err(e) => Err(e),
+                                    }
+                                } else {
+                                    (*wp).set_op("TcpStreamInProgress::connect_blocking", true);
+                                    p.connect_blocking().map(|s| Some(AnyStream::T(s)))
+                                }
+                            }
+                            Err(e) => Err(e),
+                        },
+                    };
+                    (name, r)
+                }
+            };
+            let mut s = match res {
+                Ok(Some(s)) => s,
+                other => {
+                    // with a willing peer every obtaining variant must deliver a stream
+                    if (*wp).stuck.is_none() {
+                        out.machinery = Some(format!("chain: {made_by} did not deliver a stream: {:?}", other.map(|o| o.is_some())));
+                    }
+                    out.result = "no-stream".into();
+                    return out;
+                }
+            };
+            stream_mode_check(&made_by, &s, wp, &mut out);
+            // ---- use it; the peer is connected and silent
+            (*wp).peer.connects_left = 0;
+            (*wp).peer.to_write.clear();
+            (*wp).peer.written = 0;
+            (*wp).peer.close_after = false;
+            (*wp).peer.reads = false;
+            reset_counters(wp);
+            (*wp).set_phase(Phase::Measured);
+            let mut buf = [0u8; 2];
+            match case.use_ {
+                0 => {
+                    let t = case.timeout.unwrap_or(0);
+                    (*wp).set_op(&op, true);
+                    let t0 = (*wp).clock;
+                    let r = match &mut s {
+                        AnyStream::T(ts) => ts.read_with_timeout(&mut buf, Duration::from_nanos(t)),
+                        AnyStream::U(us) => us.read(&mut buf),
+                    };
+                    match r {
+                        Ok(n) => {
+                            out.viol.push((
+                                format!("C16:{op}:returned-before-peer-acted"),
+                                format!("{op} on a stream from {made_by} returned Ok({n}) although the peer has neither written nor closed"),
+                            ));
+                            out.result = "fabricated".into();
+                        }
+                        Err(e) => out.result = judge_wait_err(&op, &e, Some((t0, t)), wp, &mut out),
+                    }
+                }
+                1 => {
+                    // no limit and a silent peer: waiting for ever is the correct behaviour
+                    (*wp).set_op(&op, false);
+                    match s.read(&mut buf) {
+                        Ok(n) => {
+                            out.viol.push((
+                                format!("C16:{op}:returned-before-peer-acted"),
+                                format!("{op} on a stream from {made_by} returned Ok({n}) although the peer has neither written nor closed"),
+                            ));
+                            out.result = "fabricated".into();
+                        }
+                        Err(e) => out.result = judge_wait_err(&op, &e, None, wp, &mut out),
+                    }
+                }
+                _ => {
+                    // more than the buffer holds and a peer that never reads: must wait for ever
+                    (*wp).set_op(&op, false);
+                    let pl = payload(case.len);
+                    match s.write_all(&pl) {
+                        Ok(()) => {
+                            out.sent = Some(pl);
+                            out.result = "ok".into();
+                        }
+                        Err(e) => out.result = judge_wait_err(&op, &e, None, wp, &mut out),
+                    }
+                }
+            }
+            snapshot(wp, &mut out);
+            (*wp).set_op("epilogue", true);
+            (*wp).set_phase(Phase::Epilogue);
+            drop(s);
+            drop(keep);
         }
     }
     out
@@ -670,7 +891,7 @@ pub fn run_exec(case: &Case, prefix: &[u8], menu: Menu) -> Exec {
             viol.append(&mut out.viol);
             outcome = out.result.clone();
             let pl = payload(case.len);
-            if case.scen == Scen::Write {
+            if case.scen == Scen::Write || (case.scen == Scen::Chain && case.use_ == 2) {
                 let got = &w.peer.received;
                 match &out.sent {
                     Some(sent) => {
@@ -727,14 +948,36 @@ pub fn run_exec(case: &Case, prefix: &[u8], menu: Menu) -> Exec {
             if out.timeout_fired && !outcome.starts_with("timeout") {
                 outcome.push_str("+to");
             }
+            if out.unix_blocking_fd {
+                outcome.push_str("+unix-blocking-fd(unobservable)");
+            }
+            if w.kernel_sleeps > 0 {
+                outcome.push_str("+kernel-sleep");
+            }
         }
     }
-    if w.deadlock {
-        viol.push((
-            format!("C16:{op}:livelock"),
-            format!("{op} blocks forever: it waits for readiness that no peer action can produce any more"),
-        ));
-        outcome = "blocked-forever".into();
+    if let Some(st) = w.stuck.clone() {
+        let call = sysx::name(st.nr);
+        if !st.must_return {
+            // no limit, silent peer: waiting for ever is what the property asks for
+            outcome = format!("blocked-awaiting-peer(ok):{}", if st.in_kernel { "in-kernel" } else { "in-ppoll" });
+        } else if st.in_kernel {
+            viol.push((
+                format!("C16:{}:blocks-in-kernel", st.op),
+                format!(
+                    "{} sleeps for ever inside {call}() on a descriptor in BLOCKING mode: nothing the peer will still do wakes it, so it can never \
+                     report Timeout / return (sock.rs only reaches ppoll after an EAGAIN, which a blocking descriptor never gives)",
+                    st.op
+                ),
+            ));
+            outcome = "blocks-in-kernel".into();
+        } else {
+            viol.push((
+                format!("C16:{}:livelock", st.op),
+                format!("{} blocks forever: it waits in ppoll for readiness that no peer action can produce any more", st.op),
+            ));
+            outcome = "blocked-forever".into();
+        }
     }
     if w.horizon_hit {
         viol.push((format!("C16:{op}:livelock"), format!("{op} issued more than {HORIZON} system calls without finishing")));
